@@ -193,6 +193,7 @@ def conclude(mod, pid, tier, seed, nshards, results, wall):
             "buckets_excluded_after_first_report": excluded,
             "skipped_by_wall_budget": sum(r["skipped_budget"] for r in results),
             "shards": nshards,
+            "slowest_cases_s": sorted([e for r in results for e in r.get("slowest", [])], key=lambda e: -e[0])[:3],
             "exhaustive": False,
             "exhaustive_subspaces": getattr(mod, "EXHAUSTIVE_SUBSPACES", {}).get(tier, []),
             "tolerance": getattr(mod, "TOLERANCE", "exact (Fraction / generic ring); 1e-9 relative where floats enter"),
